@@ -19,7 +19,9 @@ pub fn rt() -> &'static tokio::runtime::Runtime {
         let n = std::env::var("QE_VERIF_TOKIO_THREADS").ok().and_then(|s| s.parse().ok()).unwrap_or(4usize);
         tokio::runtime::Builder::new_multi_thread()
             .worker_threads(n)
-            .thread_stack_size(8 << 20)
+            // 8 MB by default (the monitors' own recursion); C29's workers ask for
+            // tokio's default 2 MB, which is what the engine's server runtime has
+            .thread_stack_size(std::env::var("QE_VERIF_TOKIO_STACK_MB").ok().and_then(|s| s.parse::<usize>().ok()).unwrap_or(8) << 20)
             .enable_all()
             .build()
             .expect("tokio runtime")
